@@ -1,3 +1,5 @@
-SPECIFICATION DummySpec
-INVARIANT DummyInv
+SPECIFICATION DSpec
+INVARIANT I_TerminalMatches
+INVARIANT I_NeverTooMuch
+PROPERTY Terminates
 POSTCONDITION EmitInputsPost
